@@ -304,15 +304,22 @@ def validate(ctx, module, cfg, lines, nproc, stem, delay=0.0):
 
 
 def self_test(ctx, module, cfg, lines, corrupt, expect, stem, delay=0.0):
-    """The binding binds: the first runs of the trace with one observation corrupted must be rejected."""
+    """The binding binds: an observation of a run that the validator ACCEPTS is corrupted and must then be rejected.
+    Independent of the code under test: the first runs are validated as they are, only runs of instances without any
+    failure are kept, one observation of them is corrupted and validated again.  If the code under test is so broken
+    that no accepted run is left to corrupt, the self test is skipped (the real failures are reported by the check)."""
     starts = [i for i, l in enumerate(lines) if l.startswith('{"ev":"init"')]
-    sub = lines[:starts[40]] if len(starts) > 40 else list(lines)
-    bad = corrupt(sub)
+    sub = lines[:starts[30]] if len(starts) > 30 else list(lines)
+    base, _, _ = validate(ctx, module, cfg, sub, 1, stem + "a", delay)
+    rejected = set(f["id"] for f in base)
+    good = [l for l in sub if json.loads(l)["id"] not in rejected]
+    bad = corrupt(good) if good else None
     if bad is None:
-        raise Infra(f"{module} self test: nothing to corrupt in the first runs")
-    fails, _, _ = validate(ctx, module, cfg, bad, 1, stem, delay)
+        ctx.notes.append(f"{module} self test ({expect}) skipped: no accepted run to corrupt among the first {len(starts[:30])}")
+        return
+    fails, _, _ = validate(ctx, module, cfg, bad, 1, stem + "b", delay + 0.2)
     if not any(f["what"].startswith(expect) for f in fails):
-        raise Infra(f"{module} self test failed: a corrupted observation ({expect}) was accepted")
+        raise Infra(f"{module} self test failed: a corrupted observation ({expect}) of an accepted run was accepted")
 
 
 def corrupt_verdict(lines):
@@ -362,7 +369,7 @@ def run_c11(ctx):
     quick = ctx.quick()
     size = "s" if quick else "l"
     # 1. exhaustive model + self test of the model, 2. generator (three TLC runs side by side)
-    nsample = 40 if quick else 0
+    nsample = 30 if quick else 0
 
     def mc():
         # quick: three of the six grouping positions in the exhaustive model (the generator and the real compiler see all)
@@ -626,7 +633,7 @@ def run_c15(ctx):
     if "Invariant NoHazard is violated" not in hz["out"]:
         raise Infra("self test failed: no reachable state has a statement sitting in a module that binds its prefix differently")
     g = ctx.tlc("PrefixScopeGen", "PrefixScopeGen.cfg", workers=12, timeout=1500, heap="10g",
-                consts={"NSample": 40 if quick else 0, "NRand": 120 if quick else 1500, "NStack": 150 if quick else 2500}, extra=["-seed", str(ctx.seed)])
+                consts={"NSample": 40 if quick else 0, "NRand": 120 if quick else 1500, "NStack": 150 if quick else 2500, "NMut": 150 if quick else 1500}, extra=["-seed", str(ctx.seed)])
     vecs = []
     for f in sorted(os.listdir(g["dir"])):
         if re.match(r"pvec_.*\.ndjson$", f):
@@ -646,7 +653,7 @@ def run_c15(ctx):
         raise Infra("cc run returned %d results for %d cases" % (len(res), len(cases)))
     lines, nxp = [], 0
     for v, c, o, lo in zip(vecs, cases, res, lines_of):
-        inst = dict(cfg=v["cfg"], stmts=[{k: s[k] for k in ("kind", "place", "T", "U", "V", "e", "pf", "on", "hp")} for s in v["stmts"]])
+        inst = dict(cfg=v["cfg"], stmts=[{k: s[k] for k in ("kind", "place", "T", "U", "V", "e", "pf", "on", "hp", "mut")} for s in v["stmts"]])
         lines.append(json.dumps(dict(ev="init", id=c["id"], inst=inst), separators=(",", ":")))
         verdicts = set(r["verdict"] for r in o["runs"])
         verdict = "crash" if "crash" in verdicts else "timeout" if "timeout" in verdicts else "nondeterministic" if len(verdicts) > 1 else o["runs"][0]["verdict"]
